@@ -570,7 +570,7 @@ def raw(R, ctx):
 def run(R, ctx):
     R.explanation = (
         "Decision tables extracted statically from the precedence/associativity/parenthesis functions and from should_break_with_space "
-        "(pattern ranges expanded over ASCII; nothing is executed), compared with independent reference tables of the Lua grammar and lexer; "
+        "(pattern ranges expanded over ASCII; the parenthesis / precedence functions are evaluated on all 16x16 operator pairs and every operand shape that matters; no program input is involved), compared with independent reference tables of the Lua grammar and lexer; "
         "guard-before-act rules for parentheses and `;` in all three generators; who-may-write table for fusion-check bypasses. Line wrapping "
         "and literal text are not decided."
     )
